@@ -1152,9 +1152,24 @@ class NewCommand(Macro):
         nargs = self.nargs
         if self.opt is not None:
             nargs -= 1
-            params.append(tex.readArgument('[]', default=self.opt,
-                                           parentNode=self,
-                                           name='#%s' % len(params)))
+            opt = tex.readArgument('[]', default=self.opt,
+                                   parentNode=self,
+                                   name='#%s' % len(params))
+            # As for any delimited argument, TeX removes the braces of an
+            # optional argument that consists of exactly one group
+            if opt is not self.opt and len(opt) > 1 and \
+               opt[0].catcode == Token.CC_BGROUP:
+                level = 0
+                for i, t in enumerate(opt):
+                    if t.catcode == Token.CC_BGROUP:
+                        level += 1
+                    elif t.catcode == Token.CC_EGROUP:
+                        level -= 1
+                    if level == 0:
+                        break
+                if level == 0 and i == len(opt) - 1:
+                    opt = opt[1:-1]
+            params.append(opt)
 
         # Get mandatory arguments
         for i in range(nargs):
